@@ -1,21 +1,29 @@
 (* Props/C02.v — property C02: every map-conformant document is accepted with zero errors.
    Statements only.  Proofs: Proofs/C0203_segment.v (on C15, C14, C07_valid), Proofs/C07_walker.v; Spec/C0203_spec.v.
 
-   PARTIAL: the segment level is a theorem, the document level is not.
-   Proved: for every map satisfying the computable predicates valid_wf / fmt_wf, every segment node with well-formed
-   syntax notes and EVERY data segment that conforms to the node — no more elements than defined; at every position
-   the value draws no error code from its definition (the clause-by-clause predicate of C15: usage, length, type
-   language, code lists, pattern, qualifier-selected formats); every syntax note holds (C14 semantics) — validation
-   returns true and emits no error event.  The hypotheses fmt_wf and notes_wf are necessary (witnesses in the proof file).
-   Not proved: that the walker locates every segment of a document generated by walking the map in order (the
-   walker theorems available are totality and the entry lemma, C07), envelope consistency (C04 gives that part:
-   C04_consistent_silent), and the acknowledgement accepting every set.  The check generates conformant documents
-   for every map the index selects and applies the property to the implementation (recorded findings: see DESIGN). *)
+   Two levels, both theorems; their composition into one statement about x12n_document is PARTIAL.
+   (i) SEGMENT: for every map satisfying the computable predicates valid_wf / fmt_wf, every segment node with
+   well-formed syntax notes and EVERY data segment that conforms to the node — no more elements than defined; at every
+   position the value draws no error code from its definition (the clause-by-clause predicate of C15: usage, length,
+   type language, code lists, pattern, qualifier-selected formats); every syntax note holds (C14 semantics) —
+   validation returns true and emits no error event.  fmt_wf and notes_wf are necessary (witnesses in the proof file).
+   (ii) DOCUMENT (Spec/C02_doc_spec.v, Proofs/C02_doc*.v): an independent, generator-style description conf_inst /
+   conf_body of "conformant instance of a loop of the map" (children in position order, required ones present,
+   repeats within max_use / repeat, loop instances starting with their first segment, wrapper loops, every data
+   segment matching its node and no rival candidate the walker tries first), and, for every map with walker_wf and
+   keys_ok (distinct nodes have distinct counter keys), EVERY such instance: the walker locates item k at exactly its
+   node, emits NO event at any step, and ends with the predicted usage counts.  walker_wf and keys_ok hold (by
+   evaluation) on all loadable shipped maps except the two 999 maps, where keys_ok fails — and there the statement is
+   false of the code: C02_999_conformant_rejected (recorded finding).
+   Not proved: the root level (ISA / GS forcing by the driver), a wrapper entered through a loop other than its first,
+   same-position siblings out of index order, and the composition of (i), (ii), C04_consistent_silent and the
+   acknowledgement theorems of C05 into "x12n_document returns True".  The check generates conformant documents for
+   every map the index selects and applies the property to the implementation (recorded findings: see DESIGN). *)
 From Coq Require Import String.
 From PX.Lib Require Import Base PyStr.
-From PX.Model Require Import Path Segment MapLoad MapTree Element.
-From PX.Spec Require Import C07_valid_wf C0203_spec.
-From PX.Proofs Require Import C07_valid C0203_segment.
+From PX.Model Require Import Path Segment MapLoad MapTree Element Counter Walker.
+From PX.Spec Require Import C07_valid_wf C07_walker_wf C0203_spec C02_doc_spec.
+From PX.Proofs Require Import C07_valid C0203_segment C02_doc_counter C02_doc_walk C02_doc C02_doc_examples.
 
 Theorem C02_conformant_segment_accepted :
   forall m sn d sg, valid_wf m = true -> fmt_wf m = true -> seg_node_of m sn -> notes_wf sn = true ->
@@ -23,3 +31,58 @@ Theorem C02_conformant_segment_accepted :
     exists evs, seg_is_valid d (ctx_of m) sn sg = Ok (true, evs) /\ no_error_event evs.
 Proof. exact conformant_segment_accepted. Qed.
 Print Assumptions C02_conformant_segment_accepted.
+
+(* THE DOCUMENT LEVEL: an instance of a loop whose first child is a segment, once the walker has found that first
+   segment (state `opened`): every further item is found at its node with NO event, and the counts are the predicted
+   ones. *)
+Theorem C02_conformant_instance_located :
+  forall m d, walker_wf m = true -> keys_ok m = true ->
+  forall C sg0 body w,
+    conf_inst m d C ((C ++ [0], sg0) :: body) ->
+    (exists s0 rest, children_of m C = NSeg s0 :: rest) ->
+    opened m w C ->
+    exists w',
+      run m d w (C ++ [0]) body w' /\
+      (forall r n, node_at (root_nodes m) r = Some n ->
+         cnt m (w_counter w') r = predicted body (cnt m (w_counter w)) r).
+Proof. exact conformant_instance_accepted. Qed.
+Print Assumptions C02_conformant_instance_located.
+
+(* what `run` means, item by item: the walker returns the item's node, no pops / pushes are in error, and the event
+   list is EMPTY (no segment-not-found, mandatory-missing, repeat-exceeded ...) *)
+Theorem C02_run_reports_nothing :
+  forall m d, walker_wf m = true -> keys_ok m = true ->
+  forall w p items w', run m d w p items w' -> forall pre it post, items = pre ++ it :: post ->
+  exists wk wk', forall sc cl ls, exists pop push,
+    walk_st m wk (last_ref pre p) d (snd it) sc cl ls = (wk', [], Ok (Some (fst it), pop, push)).
+Proof. intros m d _ _. exact (run_no_error m d). Qed.
+Print Assumptions C02_run_reports_nothing.
+
+(* non-vacuity on shipped maps: a 12-item 997 set and a 19-item 835 set (wrapper DETAIL, nested repeats) are
+   conformant instances, and the theorem applies *)
+Theorem C02_document_level_applies :
+  (walker_wf M997.mp = true /\ keys_ok M997.mp = true /\
+   conf_inst M997.mp M997.d0 M997.stl ((M997.r_st, M997.P "ST*997*0001~") :: M997.body) /\
+   opened M997.mp (start_state M997.mp M997.stl) M997.stl) /\
+  (walker_wf M835.mp = true /\ keys_ok M835.mp = true /\
+   conf_inst M835.mp M835.d0 M835.stl ((M835.r_st, M835.P "ST*835*0001~") :: M835.body) /\
+   opened M835.mp (start_state M835.mp M835.stl) M835.stl).
+Proof.
+  split.
+  - destruct M997.statics as [A B]. split; [exact A|]. split; [exact B|]. split; [exact M997.conformant | exact M997.start_opened].
+  - destruct M835.statics as [A B]. split; [exact A|]. split; [exact B|]. split; [exact M835.conformant|].
+    eapply (opened_by_entry M835.mp A B counter_init M835.stl); try (vm_compute; reflexivity). vm_compute. discriminate.
+Qed.
+Print Assumptions C02_document_level_applies.
+
+(* the hypothesis keys_ok is needed, and fails on the shipped 999 maps: loop 2100 has two CTX nodes with ONE path,
+   hence one counter.  IK3 + one CTX of each kind is a conformant instance, both are located at the right nodes,
+   and the walker reports "Segment CTX exceeded max count" (recorded finding, reproduced on the implementation) *)
+Theorem C02_999_conformant_rejected :
+  walker_wf M999.mp = true /\ keys_ok M999.mp = false /\
+  conf_inst M999.mp M999.d0 M999.l2100 ((M999.l2100 ++ [0], M999.P "IK3*NM1*8*2100*8~") :: M999.body) /\
+  trace M999.mp M999.d0 (start_state M999.mp M999.l2100) (M999.l2100 ++ [0]) M999.body =
+    [(Some (M999.l2100 ++ [1]), []);
+     (Some (M999.l2100 ++ [2]), [("5", "Segment CTX exceeded max count.  Found 2, should have 1")]%string)].
+Proof. destruct M999.keys_shared as (A & B & _ & C & D). auto. Qed.
+Print Assumptions C02_999_conformant_rejected.
